@@ -22,6 +22,7 @@ import MW.Lemmas.LedgerIssueEx
 import MW.Lemmas.LedgerAbs2
 import MW.Lemmas.LedgerObsEx
 import MW.Lemmas.LedgerD2Ex
+import MW.Lemmas.LedgerFUEx
 namespace MW.Props.C01
 open MW MW.Model.Ledger MW.Spec.Chain MW.Spec.Books MW.Lemmas.Ledger
 
@@ -271,5 +272,115 @@ example (v : Vol) (hv : v.best = tipMeta d2S) :
   d2Process v hv
 example : (coinsOf d2S1 "W1").length = 0 ∧ walletBalance d2S1 "W1" 1 = some ⟨0, 0, 0, 0⟩ := d2After
 example : d2Rolled = [2] ∧ d2Added = [(2, ["T1"]), (3, ["T2"])] := d2Report
+
+-- ------------------------------------------------------------------ round 4: the address records, EXACT, across rollback
+
+section addrs
+open MW.Lemmas.LedgerFU
+
+/-- connect keeps the address clause: under the hypotheses of `connect_sound` the store `filterBlock` returns holds
+    the first-use heights of the longer chain (a record is written only where it is 0 / absent) -/
+theorem addr_connect {c : Ctx} {s : Store} {chain rest : List Block} {b : Block}
+    (hI : Inv c s chain) (hA : AddrInv c s chain) (hnode : c.node.chain = chain ++ b :: rest)
+    (hvalid : ChainValid c.own c.node.chain) (hheight : b.height = chain.length)
+    (hAR : AllReady c.own (readyWallets s c.wallets)) (hne : (readyWallets s c.wallets).isEmpty = false)
+    {s' : Store} {conf : List TxId} (h : filterBlock c s (readyWallets s c.wallets) b = .ok (s', conf)) :
+    AddrInv c s' (chain ++ [b]) := connect_addr hI hA hnode hvalid hheight hAR hne h
+
+/-- rollback RESTORES the address clause: under the hypotheses of `disconnect_sound` the store `disconnectBlock`
+    returns for the tip block holds the first-use heights of the shorter chain – exactly the records whose first
+    use was the rolled-back block are 0 again (every payment at or above the first use is rolled back with it,
+    every payment below stays) -/
+theorem addr_disconnect {c : Ctx} {s s' : Store} {chain : List Block} {b : Block}
+    (hI : Inv c s (chain ++ [b])) (hA : AddrInv c s (chain ++ [b])) (hne : chain ≠ [])
+    (hV : ChainValid c.own (chain ++ [b])) (hH : HeightsOK (chain ++ [b]))
+    (hk : AMap.get c.node.known b.id = some b) (hAR : AllReady c.own (readyWallets s c.wallets))
+    (h : disconnectBlock c s b.height = .ok s') : AddrInv c s' chain :=
+  disconnect_addr hI hA hne hV hH hk hAR h
+
+/-- `handler_step` with the address clause: for an ARBITRARY notified block the handler step fails and changes
+    nothing, or succeeds and the store holds books AND first-use heights of the node's chain up to the block,
+    resp. – a stale block still on the wallet's chain – of its own chain up to it (direct connect, or `reorg`:
+    walk back, roll back, connect, all three loops) -/
+theorem handler_step_addrs {c : Ctx} {S : List Block} (H : ReorgHyp c S) {s : Store} {v : Vol} {b : Block}
+    (hinj : IdInj (b :: (S ++ c.node.chain))) (hI : Inv c s S) (hA : AddrInv c s S) (hv : v.best = tipMeta S)
+    (hgen : b.height = 0 → b.prev ≠ (tipMeta S).hash)
+    (hAR : AllReady c.own (readyWallets s c.wallets)) (hne : (readyWallets s c.wallets).isEmpty = false) :
+    ∃ s' v' ok, processBlock c s v b = (s', v', ok) ∧
+      ((ok = false ∧ s' = s ∧ v' = v) ∨
+       (ok = true ∧ v'.best = ⟨b.height, b.id⟩ ∧ (∀ ws, readyWallets s' ws = readyWallets s ws) ∧
+        ((c.node.chain[b.height]? = some b ∧ Inv c s' (c.node.chain.take (b.height + 1)) ∧
+            AddrInv c s' (c.node.chain.take (b.height + 1))) ∨
+         (S[b.height]? = some b ∧ Inv c s' (S.take (b.height + 1)) ∧ AddrInv c s' (S.take (b.height + 1)))))) :=
+  handler_step_addr H hinj hI hA hv hgen hAR hne
+
+/-- ADDRESS FIRST-USE HEIGHTS, EXACT (closes "proved for forward processing only"): after ANY finite history of
+    node events (extend, reorganise to any branch), handler steps and address issuances, in any order, under the
+    hypotheses of `ledger_correct_issue`, from a wallet in sync whose records are first-use heights (a fresh
+    wallet: `addr_fresh`): if no notification is pending, the ledger invariant holds AND every address record is
+    the first-use height of its key on the node's best chain, for the final keystore view -/
+theorem addr_first_use_exact (e : Env) (G : Block) (x0 : WorldI) (evs : List EvI) (H : RunHypI e G x0 evs)
+    (h0 : Inv ({ e with own := x0.own }.ctx x0.w.chain) x0.w.s x0.w.chain)
+    (hA0 : AddrInv ({ e with own := x0.own }.ctx x0.w.chain) x0.w.s x0.w.chain)
+    (hv0 : x0.w.v.best = tipMeta x0.w.chain) (hq0 : x0.w.queue = []) :
+    (runI e x0 evs).w.queue = [] →
+      Inv ({ e with own := (runI e x0 evs).own }.ctx (runI e x0 evs).w.chain) (runI e x0 evs).w.s
+          (runI e x0 evs).w.chain ∧
+      AddrInv ({ e with own := (runI e x0 evs).own }.ctx (runI e x0 evs).w.chain) (runI e x0 evs).w.s
+          (runI e x0 evs).w.chain :=
+  addr_correct_issue e G x0 evs H h0 hA0 hv0 hq0
+
+/-- … and at ANY point of the history (notifications pending or not) books and first-use heights are those of
+    ONE chain `S`: a prefix of a chain the node has had, whose tip is the follower's tip -/
+theorem addr_first_use_consistent (e : Env) (G : Block) (x0 : WorldI) (evs : List EvI) (H : RunHypI e G x0 evs)
+    (h0 : Inv ({ e with own := x0.own }.ctx x0.w.chain) x0.w.s x0.w.chain)
+    (hA0 : AddrInv ({ e with own := x0.own }.ctx x0.w.chain) x0.w.s x0.w.chain)
+    (hv0 : x0.w.v.best = tipMeta x0.w.chain) (hq0 : x0.w.queue = []) :
+    ∃ S, Inv ({ e with own := (runI e x0 evs).own }.ctx (runI e x0 evs).w.chain) (runI e x0 evs).w.s S ∧
+      AddrInv ({ e with own := (runI e x0 evs).own }.ctx (runI e x0 evs).w.chain) (runI e x0 evs).w.s S ∧
+      (runI e x0 evs).w.v.best = tipMeta S ∧ ChainOK { e with own := (runI e x0 evs).own } G S ∧
+      (∃ c ∈ chainsI e x0 evs, S <+: c) :=
+  addr_consistent_issue e G x0 evs H h0 hA0 hv0 hq0
+
+/-- the fixed-keystore histories of `ledger_correct` -/
+theorem addr_first_use_fixed (e : Env) (G : Block) (w0 : World) (evs : List Ev) (H : RunHyp e G w0 evs)
+    (h0 : Inv (e.ctx w0.chain) w0.s w0.chain) (hA0 : AddrInv (e.ctx w0.chain) w0.s w0.chain)
+    (hv0 : w0.v.best = tipMeta w0.chain) (hq0 : w0.queue = []) :
+    (runW e w0 evs).queue = [] → AddrInv (e.ctx (runW e w0 evs).chain) (runW e w0 evs).s (runW e w0 evs).chain :=
+  addr_correct e G w0 evs H h0 hA0 hv0 hq0
+
+/-- what the clause says for an owned address: record (default 0) = least positive height paying it in that class -/
+theorem addr_record_eq {c : Ctx} {s : Store} {S : List Block} (hA : AddrInv c s S) {a : Addr} {w : Wid} {ch : Bool}
+    (ho : AMap.get c.own a = some (w, ch)) (stk : Bool) :
+    (AMap.get s.addrs (w, stk, a)).getD 0 = firstUse S stk a := by
+  have := hA (w, stk, a)
+  unfold recOf ownsB gA at this
+  simpa [ho] using this
+
+/-- `firstUse` is what its name says: positive iff a block above the genesis pays the key, then below the chain
+    length, and one more block changes it only from 0, to that block's height -/
+theorem firstUse_spec (S : List Block) (stk : Bool) (a : Addr) :
+    (0 < firstUse S stk a ↔ (S.drop 1).any (paysKey stk a) = true) ∧
+    (S ≠ [] → firstUse S stk a < S.length) ∧
+    (S ≠ [] → ∀ b, firstUse (S ++ [b]) stk a =
+      if firstUse S stk a ≠ 0 then firstUse S stk a else if paysKey stk a b then S.length else 0) :=
+  ⟨firstUse_pos_iff S stk a, fun h => firstUse_lt h stk a, fun h b => firstUse_snoc h b stk a⟩
+
+/-- base case: a store without address records (or with records 0) satisfies the clause for the genesis block -/
+theorem addr_fresh {c : Ctx} {s : Store} {G : Block} (h : ∀ k, (AMap.get s.addrs k).getD 0 = 0) :
+    AddrInv c s [G] := addrInv_genesis h
+
+/-- non-vacuity: the history with a reorganisation (hx: the first payment to "a2" is rolled back and c2 pays it
+    again), the history whose reorganisation removes the only payment to "a2" (fx: record back to 0, still there),
+    the history with issuance (ix); computed records in MW.Lemmas.LedgerFUEx -/
+example : RunHyp fxEnv hxG hxW0 fxEvs := fxRunHyp
+example : AddrInv (fxEnv.ctx [hxG, hxB1, fxE2]) (runW fxEnv hxW0 fxEvs).s [hxG, hxB1, fxE2] := fxAddr
+example : AddrInv (hxEnv.ctx [hxG, hxB1, hxC2]) (runW hxEnv hxW0 hxEvs).s [hxG, hxB1, hxC2] := hxAddr
+example : AddrInv ({ ixEnv with own := ixOwn' }.ctx [hxG, hxB1, ixD2]) (runI ixEnv ix0 ixEvs).w.s [hxG, hxB1, ixD2] :=
+  ixAddr
+example : AMap.get (runW fxEnv hxW0 fxEvs).s.addrs ("w1", false, "a2") = some 0 ∧
+    AMap.get (runW fxEnv hxW0 (fxEvs.take 4)).s.addrs ("w1", false, "a2") = some 2 := by decide
+
+end addrs
 
 end MW.Props.C01
